@@ -15,6 +15,10 @@ import (
 func main() {
 	args := mon.ParseArgs()
 	log.SetOutput(io.Discard) // net/rpc logs every closed listener
+	if _, ok := args.Rest["persist-probe-child"]; ok {
+		persistProbeChild(args)
+		return
+	}
 	if _, ok := args.Rest["hist-seg-child"]; ok {
 		histSegChild(args)
 		return
